@@ -78,7 +78,7 @@ func (c *Ctx) Paths(rule string, fn *ssa.Function) []*pathx.Path {
 		return ps
 	}
 	var ps []*pathx.Path
-	st, err := pathx.Enumerate(fn, pathx.Config{Loads: true}, func(p *pathx.Path) { ps = append(ps, p) })
+	st, err := pathx.Enumerate(fn, pathx.Config{Loads: true, InlineLoops: true, Inline: func(_, callee *ssa.Function) bool { return c.isNewHelper(callee) }}, func(p *pathx.Path) { ps = append(ps, p) })
 	if err != nil {
 		c.S.Unknown(rule, rule+"|paths|"+load.FuncName(fn), c.P.Pos(fn.Pos()), load.FuncName(fn), "path enumeration failed: "+err.Error())
 	}
@@ -272,6 +272,13 @@ func (c *Ctx) wireCapable() map[*ssa.Function]bool {
 			}
 		}
 	}
+	// new helpers are expanded inside their callers by the path engine: a
+	// call to one is not an event of its own, its body is
+	for f := range out {
+		if c.isNewHelper(f) {
+			delete(out, f)
+		}
+	}
 	return out
 }
 
@@ -367,3 +374,37 @@ func pathxNamed(t types.Type) string {
 func fmtPath(c *Ctx, p *pathx.Path, upto int) []string { return c.Trace(p, upto) }
 
 var _ = fmt.Sprintf
+
+// isNewHelper: an unexported function of the analysed packages that did not
+// exist when the rules were written (see knownFuncs). Such helpers are
+// expanded inside their callers by the path engine.
+func (c *Ctx) isNewHelper(f *ssa.Function) bool {
+	if f == nil || len(f.Blocks) == 0 {
+		return false
+	}
+	top := load.TopLevel(f)
+	name := load.FuncName(top)
+	switch top.Pkg {
+	case c.P.Root:
+	case c.P.Test:
+		name = "mqtttest." + name
+	default:
+		return false
+	}
+	if top.Synthetic != "" || isExported(top) {
+		return false
+	}
+	return !knownFuncs[name]
+}
+
+// analysed lists the root-package functions that rules judge on their own
+// (new helpers are judged through their callers).
+func (c *Ctx) analysed() []*ssa.Function {
+	var out []*ssa.Function
+	for _, f := range c.funcs {
+		if !c.isNewHelper(f) {
+			out = append(out, f)
+		}
+	}
+	return out
+}
